@@ -41,10 +41,28 @@ pub(crate) fn named(attr: &StructAttr, ts_name: Expr, fields: &FieldsNamed) -> R
         (0, 0) => quote!("{  }".to_owned()),
         (_, 0) => quote!(format!("{{ {} }}", #fields)),
         (0, 1) => quote! {{
-            if #flattened.starts_with('(') && #flattened.ends_with(')') {
-                #flattened[1..#flattened.len() - 1].trim().to_owned()
+            let flattened = #flattened;
+            // the outer parentheses are dropped only if they belong together: `(A | B)`, not `(A) & (B)`
+            let mut wrapped = flattened.starts_with('(') && flattened.ends_with(')');
+            if wrapped {
+                let mut depth = 0usize;
+                let mut chars = flattened.chars().peekable();
+                while let Some(c) = chars.next() {
+                    if c == '(' {
+                        depth += 1;
+                    } else if c == ')' {
+                        depth = depth.saturating_sub(1);
+                        if depth == 0 && chars.peek().is_some() {
+                            wrapped = false;
+                            break;
+                        }
+                    }
+                }
+            }
+            if wrapped {
+                flattened[1..flattened.len() - 1].trim().to_owned()
             } else {
-                #flattened.trim().to_owned()
+                flattened.trim().to_owned()
             }
         }},
         (0, _) => quote!(#flattened),
